@@ -10,6 +10,7 @@ import (
 	"strings"
 
 	"verifharness/internal/idlgen"
+	"verifharness/internal/values"
 	"verifharness/internal/vl"
 )
 
@@ -34,7 +35,9 @@ var wideArgNames = []string{
 	"thrift", "context", "fmt", "string", "int32", "error", "nil", "true", "len", "append", "type", "func", "map", "struct", "const", "P", "Err", "Ctx", "R", "_", "__", "_p", "p_", "_type",
 }
 var wideEnumValues = []string{"A", "a", "_A", "A_", "a__b", "nil", "true", "String", "string", "FromString", "Ptr", "DEFAULT", "default", "type", "New", "int64"}
-var widePackages = []string{"fmt", "context", "thrift", "strings", "bytes", "reflect", "unknown", "meta", "sql", "driver", "err", "iprot", "errors", "math", "types"}
+var widePackages = []string{"fmt", "context", "thrift", "strings", "bytes", "reflect", "unknown", "meta", "sql", "driver", "errors", "math", "types"}
+// (package names equal to a LOCAL of the generated bodies — c, b, p, x, err, iprot … — are the known D9 family: they are
+// reproduced by the dedicated units D9a/b/c, not drawn at random)
 
 // aimed renames derive a colliding name from names that exist in the program.
 type aim struct {
@@ -279,6 +282,84 @@ func collidePackages(r *vl.Rng, p *Program, count func(string)) *Program {
 		return p
 	}
 	count("stress.collide-packages")
+	return q
+}
+
+// identInts rewrites integer literals of constant expressions (constant bodies, list/set elements, map values, field and
+// argument defaults, members of struct literals) into IDENTIFIERS of integer constants of another width — among them a
+// constant that is itself given by an enum value (a typed constant in Go) — across includes where the file is visible.
+// Map keys are left alone (two keys may denote one value). Values stay what they were, so the program's meaning is kept.
+func identInts(r *vl.Rng, p *Program, count func(string)) *Program {
+	q := cloneProgram(p)
+	normOrder(q)
+	type ic struct {
+		file int
+		name string
+		val  string
+	}
+	var pool []ic
+	// an i32 constant per enum value of small magnitude: `const i32 <E>_<V>_LEVEL = E.V`
+	for fi, f := range q.Files {
+		for _, e := range f.Enums {
+			v := e.Values[r.Intn(len(e.Values))]
+			if v.Value < 0 || v.Value > 100 || len(pool) >= 3 {
+				continue
+			}
+			name := "LVL_" + e.Name + "_" + v.Name
+			if findConst(f, name) != nil {
+				continue
+			}
+			f.Consts = append(f.Consts, &idlgen.ConstDef{Name: name, Type: &Type{Kind: idlgen.I32}, Value: &Const{Kind: idlgen.CIdent, Text: e.Name + "." + v.Name, Val: values.Int(v.Value)}})
+			f.Order = append([]idlgen.DefRef{{Kind: 'c', Idx: len(f.Consts) - 1}}, f.Order...)
+			pool = append(pool, ic{fi, name, itoa(int(v.Value))})
+		}
+		for _, c := range f.Consts {
+			if c.Value.Kind == idlgen.CInt && baseClass(q, c.Type) == 'i' && len(c.Value.Text) <= 2 && c.Value.Text[0] != '-' {
+				pool = append(pool, ic{fi, c.Name, c.Value.Text})
+			}
+		}
+	}
+	if len(pool) == 0 {
+		return p
+	}
+	own := map[*Const]bool{} // the bodies of the pool constants stay literals: no constant in terms of another one's alias (cycles)
+	for _, k := range pool {
+		own[findConst(q.Files[k.file], k.name).Value] = true
+	}
+	n := 0
+	eachConst(q, func(fi int, t *Type, root *Const) {
+		inKey := map[*Const]bool{}
+		var mark func(c *Const, t *Type)
+		mark = func(c *Const, t *Type) {
+			d := deref(q, t)
+			if c.Kind == idlgen.CMap && d != nil && d.Kind == idlgen.Map {
+				for i := 0; i+1 < len(c.Items); i += 2 {
+					inKey[c.Items[i]] = true
+				}
+			}
+		}
+		walkConst(q, fi, t, root, func(c *Const, ct *Type, st *idlgen.Struct, sf int) {
+			if st != nil || ct == nil {
+				return
+			}
+			mark(c, ct)
+			if c.Kind != idlgen.CInt || inKey[c] || own[c] || baseClass(q, ct) != 'i' || !r.Chance(30) {
+				return
+			}
+			for _, k := range pool {
+				if k.val != c.Text || (k.file != fi && !includes(q, fi, k.file)) {
+					continue
+				}
+				c.Kind, c.Text = idlgen.CIdent, qualify(q, fi, k.file, k.name)
+				n++
+				break
+			}
+		})
+	})
+	if n == 0 || !valid(q) {
+		return p
+	}
+	count("stress.ident-ints")
 	return q
 }
 
